@@ -436,6 +436,37 @@ Fixpoint call_chain_n (gs : list built) (n : nat) (c : call) {struct n} : res bi
       end
   end.
 
+(* ... and what the wrappers of those entered levels received, outermost first *)
+Fixpoint chain_saws (gs : list built) (n : nat) (c : call) {struct n} : list call :=
+  match n with
+  | O => []
+  | S n' =>
+      match gs with
+      | [] => []
+      | g :: below =>
+          match call_func (b_func g) c with
+          | Raise _ => []
+          | Ok env => match eval_inv (b_inv g) env with
+                      | Raise _ => []
+                      | Ok c' => c' :: chain_saws below n' c'
+                      end
+          end
+      end
+  end.
+
+Definition lower_saws (gs_outer_first : list built) (forward : bool) (partial : nat) (c : call) : list call :=
+  match gs_outer_first with
+  | [] => []
+  | g :: below =>
+      match call_func (b_func g) c with
+      | Raise _ => []
+      | Ok env => match eval_inv (b_inv g) env with
+                  | Raise _ => []
+                  | Ok c' => if forward then [] else chain_saws below partial c'
+                  end
+      end
+  end.
+
 (* the outermost function of a stack called on a call shape: what the outermost
    wrapper received and the outcome (see call_built).  [forward]: every wrapper
    forwards, down to f; otherwise the wrappers of the top [partial] levels forward
